@@ -93,7 +93,7 @@ def gen_file(rng, tier):
             resid += rng.randint(2, 50)
         # else: the number stays: the next residue is a new one only if its name differs; equal (number, name)
         # records merge into one residue by the rule the property states
-    title = rng.choice(["Generated system", "t= 0.0 step= 0", "  leading blanks", "x" * 70, "1234"])
+    title = rng.choice(["Generated system", "t= 0.0 step= 0", "  leading blanks", "x" * 70, "1234", "   ", " ", "\t"])     # (a title of blanks is a title)
     box = [round(rng.uniform(1, 40), 5) for _ in range(3)]
     if rng.random() < 0.3:
         box += [0.0, 0.0, round(rng.uniform(-3, 3), 5), 0.0, round(rng.uniform(-3, 3), 5), round(rng.uniform(-3, 3), 5)]
